@@ -1,15 +1,16 @@
 #!/bin/sh
 # usage: tools/seed_import.sh <worktree> <seed-id> <property>
 # Saves the worktree's uncommitted change + demo under /verif/seeded/<seed-id>/ after confirming that the demo fails with
-# the change and passes without it, and that the unit tests still pass with it.
+# the change and passes without it.  (No git stash: the stash is shared by all worktrees of a repository.)
 W=$1; ID=$2; P=$3
 S=/verif/seeded/$ID; mkdir -p $S
 git -C $W diff -- pydcop > $S/patch.diff
 cp $W/demo_seed.py $S/demo_seed.py
+echo "files changed: $(grep '^+++ b/' $S/patch.diff | sed 's/^+++ b\///' | tr '\n' ' ')"
 cd $W
 PYTHONPATH=$W timeout 300 /venv/bin/python demo_seed.py > $S/demo_with.txt 2>&1; RC_WITH=$?
-git stash -q
+git checkout -q -- pydcop
 PYTHONPATH=$W timeout 300 /venv/bin/python demo_seed.py > $S/demo_without.txt 2>&1; RC_WITHOUT=$?
-git stash pop -q
+git apply $S/patch.diff
 echo "demo with change: exit $RC_WITH ; without: exit $RC_WITHOUT"
 echo "$RC_WITH $RC_WITHOUT" > $S/demo_rc.txt
